@@ -4,8 +4,8 @@
    [hf8_def xs q] is the textbook estimate on the order statistics of [Qsort xs] (a verified
    sort: Base/GASort.v) with h = (N + 1/3) q + 1/3, q clamped to [0,1], order statistics clamped
    to the smallest and largest value. *)
-From MM Require Import Base.Num Base.GASort Model.Sample Model.Quantile Spec.Quantile Proofs.Quantile Proofs.QuantileW
-  Proofs.CheckBase Check.C10 Proofs.CheckC10.
+From MM Require Import Base.Num Base.GASort Model.Stream Proofs.Stream Model.Sample Model.Quantile Spec.Quantile Proofs.Quantile Proofs.QuantileW
+  Proofs.Sample Proofs.QuantileWAll Proofs.CheckBase Check.C10 Proofs.CheckC10.
 From Coq Require Import Permutation Sorted Qround.
 Local Open Scope Q_scope.
 
@@ -15,6 +15,18 @@ Theorem C10_quantile_is_hf8_exact_constant : forall xs q, xs <> [] ->
   exists v, quantile_c (1 # 3) (unsorted xs) q = RVal v /\ v == hf8_def xs q.
 Proof. exact quantile_is_hf8_exact. Qed.
 Print Assumptions C10_quantile_is_hf8_exact_constant.
+
+(* The constant of the code IS fl(1/3): third_f is the value of the float64 bit pattern 0x3FD5555555555555,
+   a 53-bit significand times 2^-54, and no multiple of 2^-54 (no float64 of that binade) is closer to 1/3;
+   1/3 - third_f = 2^-54/3 exactly.  (The bound of C10_quantile_is_hf8 below is proved for EVERY sample
+   size and every q: Proofs/Quantile.v, hf_const_close.) *)
+Theorem C10_float_third_is_nearest :
+  decode_bits 0x3FD5555555555555 = XFin third_f /\
+  (third_f == inject_Z 6004799503160661 / inject_Z (2 ^ 54) /\ (2 ^ 52 <= 6004799503160661 < 2 ^ 53)%Z) /\
+  (1 # 3) - third_f == 1 # (3 * 2 ^ 54) /\
+  forall m : Z, (1 # 3) - third_f <= Qabs ((1 # 3) - inject_Z m / inject_Z (2 ^ 54)).
+Proof. exact (conj third_f_bits (conj third_f_float (conj third_f_close third_f_nearest))). Qed.
+Print Assumptions C10_float_third_is_nearest.
 
 (* With the constant of the code (the float64 nearest 1/3, 1/3 - 2^-54/3) it never fails and
    differs from HF8 by at most (1+q) * 2^-54/3 * (max - min). *)
@@ -128,6 +140,48 @@ Theorem C10_weighted_quantile_monotone_in_q : forall xs ws st q1 q2 v1 v2,
 Proof. exact weighted_quantile_monotone_in_q. Qed.
 Print Assumptions C10_weighted_quantile_monotone_in_q.
 
+(* WEIGHTED, THE ENDS q <= 0 / q >= 1: Quantile returns the weighted Bounds (C09_weighted_bounds_def,
+   C09_weighted_sorted_flag_irrelevant): the least / greatest value carrying a non-zero weight, NaN when
+   nothing carries weight - whatever the order and the Sorted flag *)
+Theorem C10_weighted_quantile_ends : forall xs ws st q, xs <> [] -> length ws = length xs ->
+  (st = true -> StronglySorted Qle xs) -> q <= 0 \/ 1 <= q ->
+  match used (combine xs ws) with
+  | [] => quantile (mkSample xs (Some ws) st) q = RNaN
+  | u => exists v, quantile (mkSample xs (Some ws) st) q = RVal v /\
+                   (q <= 0 -> is_min v u) /\ (0 < q -> is_max v u)
+  end.
+Proof. exact weighted_quantile_ends. Qed.
+Print Assumptions C10_weighted_quantile_ends.
+
+(* ... so, for EVERY q (no restriction to 0 < q < 1): the weighted result depends only on the multiset of
+   (value, weight) pairs - not on the input order, not on the Sorted flag *)
+Theorem C10_weighted_quantile_presentation_invariant_all_q : forall xs ws st ys vs st' q,
+  xs <> [] -> length ws = length xs -> length vs = length ys ->
+  (st = true -> StronglySorted Qle xs) -> (st' = true -> StronglySorted Qle ys) ->
+  nonneg (combine xs ws) -> Permutation (combine xs ws) (combine ys vs) ->
+  qr_eq (quantile (mkSample xs (Some ws) st) q) (quantile (mkSample ys (Some vs) st') q).
+Proof. exact weighted_quantile_presentation_invariant_all. Qed.
+Print Assumptions C10_weighted_quantile_presentation_invariant_all_q.
+
+(* ... and it is non-decreasing in q over the WHOLE line (any q1 <= q2; a NaN result - nothing carries
+   weight, q at an end - is not a value and is not compared) *)
+Theorem C10_weighted_quantile_monotone_all_q : forall xs ws st q1 q2 v1 v2,
+  xs <> [] -> length ws = length xs -> q1 <= q2 ->
+  (st = true -> StronglySorted Qle xs) -> nonneg (combine xs ws) ->
+  quantile (mkSample xs (Some ws) st) q1 = RVal v1 ->
+  quantile (mkSample xs (Some ws) st) q2 = RVal v2 -> v1 <= v2.
+Proof. exact weighted_quantile_monotone_all. Qed.
+Print Assumptions C10_weighted_quantile_monotone_all_q.
+
+(* {3:0, 1:1, 2:2} (the largest value carries no weight): q = -1 -> 1, q = 1/2 -> 2, q = 7 -> 2, in two presentations *)
+Example C10_example_weighted_ends :
+  quantile (mkSample [3; 1; 2] (Some [0; 1; 2]) false) (-1) = RVal 1 /\
+  quantile (mkSample [3; 1; 2] (Some [0; 1; 2]) false) (1 # 2) = RVal 2 /\
+  quantile (mkSample [3; 1; 2] (Some [0; 1; 2]) false) 7 = RVal 2 /\
+  quantile (mkSample [1; 2; 3] (Some [1; 2; 0]) true) 7 = RVal 2 /\
+  quantile (mkSample [1; 2] (Some [0; 0]) true) 0 = RNaN.
+Proof. vm_compute. repeat split; reflexivity. Qed.
+
 (* for 0 < q < 1 sorting first (once) gives the same result — the comparator relies on it *)
 Theorem C10_quantile_sort_first : forall c s q, Qle_bool q 0 = false -> Qle_bool 1 q = false ->
   (s_ws s = None \/ exists ws, s_ws s = Some ws /\ length ws = length (s_xs s)) ->
@@ -181,12 +235,13 @@ Proof. vm_compute. repeat split; reflexivity. Qed.
      the two ends q*W -+ tol_wtarget of the borderline window (in_window) - and t = q*W for every
      query when the verdict code is 0; for q <= 0 / q >= 1 the least / greatest value that carries
      a non-zero weight (NaN if there is none); IQR returned v with |v - (a - b)| <= tol_iqr_w xs for
-     a, b such values at q = 3/4 and 1/4 (targets in their windows). *)
+     a, b such values at q = 3/4 and 1/4 (targets in their windows) - and, when the verdict code is 0,
+     at the EXACT targets 3W/4 and W/4 (w_iqr_exact): a borderline choice inside the IQR raises the code to 1. *)
 (* In addition, EXACTLY (no tolerance, on the observed floats; [order_facts]): every finite result lies
-   between two values of the sample, and the results of one case are non-decreasing in q.  The comparator
-   also checks, without tolerance, that an interpolated unweighted result lies in the bracket of its two
-   order statistics (widened by one statistic when the position is within 1e-6 of an integer); that
-   bracket test is not part of the theorem (see meta/C10.json, partial). *)
+   between two values of the sample, the results of one case are non-decreasing in q, and (unweighted;
+   [bracket_facts], [bracket_ok]) an interpolated result at position h = k + frac, 1 <= k < N, lies in the
+   bracket [x_(k), x_(k+1)] of its two order statistics of Qsort xs, widened by one order statistic on each side
+   when frac is within 1e-6 of 0 or 1. *)
 Theorem C10_check_ok_sound : forall line c tag pos diag hist cases,
   check_C10 line = verdict c tag pos diag -> (c = 0 \/ c = 1)%Z ->
   p_line line = Some ((hist, cases), []) -> Forall (case_ok c) cases.
@@ -203,6 +258,49 @@ Theorem C10_check_constant_sample : forall xs qs c, order_facts xs qs -> xs <> [
   forall q st v, In (q, st, XFin v) qs -> v == c.
 Proof. exact order_facts_constant. Qed.
 Print Assumptions C10_check_constant_sample.
+
+(* THE BRACKET is part of case_ok (unweighted, non-empty) ... *)
+Theorem C10_check_bracket : forall code sorted xs ws qs ist iv unm,
+  case_ok code (sorted, false, xs, ws, qs, ist, iv, unm) -> xs <> [] ->
+  forall q st v, In (q, st, XFin v) qs -> bracket_ok (Qsort xs) q v.
+Proof. exact case_ok_bracket. Qed.
+Print Assumptions C10_check_bracket.
+
+(* ... hence, away from the break points, between two EQUAL adjacent order statistics x_(k) == x_(k+1) the
+   only admissible result is exactly that value (no tolerance) ... *)
+Theorem C10_bracket_equal_neighbours : forall sx q v, bracket_ok sx q v ->
+  let n := length sx in
+  let h := quantile_pos third_f n q in
+  let k := Qfloor h in
+  0 < q -> q < 1 -> (1 <= k)%Z -> (k < Z.of_nat n)%Z -> near_break (h - inject_Z k) = false ->
+  forall a b, nth_error sx (Z.to_nat (k - 1)) = Some a -> nth_error sx (Z.to_nat k) = Some b -> a == b -> v == a.
+Proof. exact bracket_equal_neighbours. Qed.
+Print Assumptions C10_bracket_equal_neighbours.
+
+(* ... and in general (near a break point the bracket is one statistic wider on each side): equal ends of the bracket
+   force the value *)
+Theorem C10_bracket_equal_ends : forall sx q v, bracket_ok sx q v ->
+  let n := length sx in
+  let h := quantile_pos third_f n q in
+  let k := Qfloor h in
+  0 < q -> q < 1 -> (1 <= k)%Z -> (k < Z.of_nat n)%Z ->
+  forall a b, nth_error sx (bracket_lo (near_break (h - inject_Z k)) (Z.to_nat (k - 1))) = Some a ->
+              nth_error sx (bracket_hi (near_break (h - inject_Z k)) (Z.to_nat (k - 1)) n) = Some b ->
+              a == b -> v == a.
+Proof. exact bracket_equal_ends. Qed.
+Print Assumptions C10_bracket_equal_ends.
+
+(* non-vacuity: {1,2,2,3} at q = 1/2: h = 2.5 (up to 2^-55), k = 2, the bracket is [x_(2), x_(3)] = [2, 2]:
+   2 is admitted, 2 + 2^-40 is not *)
+Example C10_bracket_example :
+  bracket_ok [1; 2; 2; 3] (1 # 2) 2 /\ ~ bracket_ok [1; 2; 2; 3] (1 # 2) (2 + (1 # 2 ^ 40)).
+Proof.
+  split; [apply bracket_b_sound; vm_compute; reflexivity|].
+  intro H.
+  assert (E : 2 + (1 # 2 ^ 40) == 2).
+  { refine (bracket_equal_neighbours [1; 2; 2; 3] (1 # 2) _ H _ _ _ _ _ 2 2 _ _ _); vm_compute; try reflexivity; discriminate. }
+  revert E. vm_compute. discriminate.
+Qed.
 
 (* the same for one step: check_case is what check_C10 runs on every step *)
 Theorem C10_check_case_sound : forall c v t p d,
@@ -244,6 +342,14 @@ Example C10_check_example_borderline :
   let line := [10; 0; 1; 2; 0x3ff0000000000000; 0x4000000000000000; 2; 0x3ff0000000000000; 0x4000000000000000; 2; 0x3fd5555555555555; 0; 0x4000000000000000; 0x3fe0000000000000; 0; 0x4000000000000000; 0; 0x3ff0000000000000; 1]%Z in
   match check_C10 line with code :: tag :: _ => code = 1%Z /\ Z.land tag 512 = 512%Z | _ => False end.
 Proof. vm_compute. split; reflexivity. Qed.
+(* weighted {1,2,3,4}, every weight fl(0.3), one query q = 0.6 (not at a tie: returns 3, code 0); the quartile
+   targets 3W/4 and W/4 coincide EXACTLY with cumulative weights of the model (3 fl(0.3), fl(0.3)) but not of the float
+   scan (0.3+0.3+0.3 rounds down): the code returns IQR = 1 where the exact scan gives 4 - 2 = 2.  Accepted as
+   BORDERLINE through the IQR alone: verdict code 1, tag bit 512 (real line: Go output on /repo) *)
+Example C10_check_example_borderline_iqr :
+  let line := [10; 0; 1; 4; 0x3ff0000000000000; 0x4000000000000000; 0x4008000000000000; 0x4010000000000000; 4; 0x3fd3333333333333; 0x3fd3333333333333; 0x3fd3333333333333; 0x3fd3333333333333; 1; 0x3fe3333333333333; 0; 0x4008000000000000; 0; 0x3ff0000000000000; 1]%Z in
+  check_C10 line = verdict 1 544 (-1) [] /\ exists c, p_line line = Some ((false, [c]), []).
+Proof. vm_compute. split; [reflexivity|eexists; reflexivity]. Qed.
 (* a history of three steps on one backing array: {5,4,0}, overwritten by {4,0,5}, then {0,4,7} Sorted *)
 Example C10_check_example_history :
   let line := [10; 2; 3; 0; 0; 3; 0x4014000000000000; 0x4010000000000000; 0; 0; 1; 0x3fe0000000000000; 0; 0x4010000000000000; 0; 0x4010aaaaaaaaaaab; 1; 0; 0; 3; 0x4010000000000000; 0; 0x4014000000000000; 0; 2; 0x3fe0000000000000; 0; 0x4010000000000000; 0x3fd0000000000000; 0; 0x3fe5555555555558; 0; 0x4010aaaaaaaaaaab; 1; 1; 0; 3; 0; 0x4010000000000000; 0x401c000000000000; 0; 1; 0x3fe0000000000000; 0; 0x4010000000000000; 0; 0x4017555555555555; 1]%Z in
